@@ -28,7 +28,8 @@ REGISTRY = dict(
     note=("Trusted: Coq 8.16.1 kernel (vm_compute, no native_compute), translate/py2coq.py (np.clip case added) + specs/offpolicy.py, harness/c04.py, Python/numpy/torch/gymnasium. "
           "Modelled, not verified: the policy network / predict / action_space.sample / noise objects (oracle inputs recorded from the run), float32 rounding (actions compared at 1e-5), numpy vectorisation over "
           "envs (the model is per env column). VecNormalize runs are judged by the oracle only (raw observation / reward stored), the model is not evaluated on them. A learn() stopped by a callback "
-          "is not exercised. Model/OnPolicyCollect.vstep1 duplicates the auto-reset step of Model/VecEnv.v. All C04 theorems are closed under the global context."),
+          "IS exercised (known finding callback-stop-loses-transition-then-stale-last-obs, Refuted/C04_callback_stop.v). Known findings of C04: vecnormalize-terminal-obs-clipped (F11), "
+          "callback-stop-loses-transition-then-stale-last-obs (F20). Model/OnPolicyCollect.vstep1 restates the auto-reset step of Model/VecEnv.v (proved equal to its per-env projection in Proofs/VecEnvTieProofs.v). All C04 theorems are closed under the global context."),
     technique="machine-checked proof in Coq (induction over the oracle list / loop fuel; field/lra over Q) + regenerated-fragment interface lemmas + differential correspondence on real off-policy runs",
 )
 
@@ -793,7 +794,7 @@ def main():
         "unscaled actions (policy / warm-up sampler) and noise samples are oracle inputs of the model, recorded from the run",
         "float32 rounding is not modelled: buffer actions and env actions are compared at rel/abs 1e-5",
         "VecNormalize runs (clipping disabled) are judged by the statement-level oracle only; raw observations are decoded after rounding to the nearest integer tag (distance reported)",
-        "a learn() stopped by a callback is not exercised (the step whose callback returned False is not stored by design of collect_rollouts)",
+        "a learn() stopped by a callback is exercised; the step whose callback returned False is not stored (known finding F20)",
     ]
     from harness import cov_collect as branchcov
 
